@@ -1,6 +1,7 @@
 package scen
 
 import (
+	"encoding/json"
 	baskettypes "github.com/regen-network/regen-ledger/x/ecocredit/v3/basket/types/v1"
 
 	"strings"
@@ -289,9 +290,11 @@ func BridgeSpec() Spec {
 		fix(BridgeReceive(A, "C01", "VCS-2", C, "2", date(2021, 6, 1), date(2022, 1, 1), tx(3, "polygon", Contract2))),   // new contract => new project+batch
 		fix(BridgeReceive(A, "C01", "VCS-1", B, Eps, date(2020, 1, 1), date(2022, 1, 1), tx(2, "Polygon", Contract1))),   // case variant of source
 		fix(Mint(A, B3, C, "1", "0.5", tx(4, "polygon", ""))),
-		fix(Mint(A, B1, C, "1", "0", tx(2, "polygon", ""))), // same id as a BridgeReceive event: whichever comes first wins
-		fix(Mint(A, B3, C, "1", "0", tx(2, "Polygon", ""))), // the capitalised spelling, same id as the capitalised receipt
-		fix(Mint(A, B3, C, "1", "0", tx(3, "polygon", ""))), // b3 lives in project key 3 of class key 1; tx 3 is also used by a BridgeReceive and a CreateBatch
+		fix(Mint(A, B1, C, "1", "0", tx(2, "polygon", ""))),        // same id as a BridgeReceive event: whichever comes first wins
+		fix(Mint(A, B3, C, "1", "0", tx(2, "Polygon", ""))),        // the capitalised spelling, same id as the capitalised receipt
+		fix(Mint(A, B3, C, "1", "0", tx(6, "polygon", Contract2))), // a direct mint into the bound batch naming ANOTHER contract
+		fix(Mint(A, B1, C, "1", "0", tx(7, "polygon", Contract2))), // ... and into a native batch
+		fix(Mint(A, B3, C, "1", "0", tx(3, "polygon", ""))),        // b3 lives in project key 3 of class key 1; tx 3 is also used by a BridgeReceive and a CreateBatch
 		fix(CreateBatch(A, "C01-002", date(2022, 1, 1), date(2023, 1, 1), true, tx(3, "polygon", ""), Iss(B, "1", "0"))),
 		fix(CreateBatch(A, "C01-001", date(2022, 1, 1), date(2023, 1, 1), true, tx(5, "polygon", Contract2), Iss(B, "3", "0"))),
 		fix(CreateBatch(A2, "C02-001", date(2022, 1, 1), date(2023, 1, 1), true, tx(1, "polygon", Contract1), Iss(B, "3", "0"))), // other class: same tx+contract is fine
@@ -413,6 +416,53 @@ func GovPool() Spec {
 	}
 	return Spec{Name: "govpool", Seeds: []explore.Seed{seed},
 		Events: append(good, bad...), DepthQuick: 4, DepthThor: 5, ExpectFail: expectFail(names(bad...)...), MinStates: 300}
+}
+
+// SparseGenesis: the prepared state IMPORTED FROM A GENESIS DOCUMENT in which every zero amount of the
+// balance and supply rows is left out (an absent field; the modules' own validation admits it and the
+// repository's own genesis test uses it), followed by operations of all three sub-modules on those rows.
+// States built by messages never contain such rows.
+func SparseGenesis() Spec {
+	seed := GenesisSeed("genesis-with-absent-zero-amounts", PreparedActions(), func(d GenDoc) {
+		for _, table := range []string{"regen.ecocredit.v1.BatchBalance", "regen.ecocredit.v1.BatchSupply"} {
+			var rows []map[string]interface{}
+			if err := json.Unmarshal(d[table], &rows); err != nil {
+				panic(err)
+			}
+			for _, r := range rows {
+				for _, k := range []string{"tradableAmount", "retiredAmount", "escrowedAmount", "cancelledAmount", "tradable_amount", "retired_amount", "escrowed_amount", "cancelled_amount"} {
+					if v, ok := r[k].(string); ok && v == "0" {
+						delete(r, k)
+					}
+				}
+			}
+			d.Set(table, rows)
+		}
+	})
+	e10 := chain.T0.Add(10 * time.Second)
+	ur := func(n int64) sdk.Coin { return coin("uregen", n) }
+	evs := []E{
+		fix(Put(C, NCT, BC(B2, "1"))),
+		fix(Put(C, RCT, BC(B1, "1"))),
+		fix(Take(B, NCT, "1000000", false)),
+		fix(Take(B, NCT, "500000", true)),
+		TakeAll(C, NCT, false),
+		TakeAll(C, RCT, true),
+		fix(BankSend("BankSend(B->C,1000000NCT)", B, C, coin(NCT, 1000000))),
+		fix(Send(C, B, B2, "1", "0.5")),
+		fix(Send(B, D, B2, "1", "0")),
+		fix(Retire(C, B2, "0.5")),
+		fix(Cancel(C, B2, "0.5")),
+		fix(Sell(C, B2, "1", ur(2), false, &e10)),
+		Buy(D, "C-last-order", BuySpec{Seller: C, K: 1, Qty: "0.5", MaxFee: I64(100)}),
+		MintFresh(A, B1, D, "1", "0"),
+		fix(Next(11 * time.Second)),
+	}
+	exp := map[string]bool{}
+	for _, e := range evs {
+		exp[e.Name] = true
+	}
+	return Spec{Name: "sparse-genesis", Seeds: []explore.Seed{seed}, Events: evs, DepthQuick: 3, DepthThor: 4, ExpectFail: exp, MinStates: 100}
 }
 
 // BasketMarket: basket tokens used as the ask denomination of the marketplace, with fees (C05): the
